@@ -59,7 +59,7 @@ ALLOWED_SUB = {
     "Object": SUB_OBJ + ["properties"],
 }
 
-PY_NAMES = ["a", "b", "c", "ab", "a_b", "class_", "x1", "value"]
+PY_NAMES = ["a", "b", "c", "ab", "a_b", "class_", "x1", "value", "default", "description", "required", "enum"]
 SOURCES = ["class", "a-b", "$id", "1x", "not", "d", "A", ""]
 CLASS_NAMES = ["Foo", "Bar", "Baz", "Qux", "Quux", "Corge", "Grault", "Garply", "Waldo", "Fred", "Plugh", "Xyzzy",
                "Thud", "Wibble", "Wobble", "Flob"]
@@ -408,7 +408,9 @@ def _node(draw, cfg, depth, gen, kinds=None):
             chosen.append("items")
         for k in chosen:
             if k == "items":
-                if draw(st.integers(0, 2)) == 0:
+                if draw(st.integers(0, 11)) == 0:
+                    subs[k] = {"id": gen.new_id(), "kind": "Nothing", "kw": {}}  # "items": false
+                elif draw(st.integers(0, 2)) == 0:
                     # never an empty tuple: `items: []` is not a valid Draft-6 schema
                     subs[k] = [draw(sub_node()) for _ in range(draw(st.integers(1, 3)))]
                 else:
